@@ -117,6 +117,7 @@ func startTLS(t *tls.Conn, raw *Peer) *TLSPeer {
 		for {
 			n, err := t.Read(b)
 			p.mu.Lock()
+			scanPoison(raw.C.Name+" (TLS plaintext)", p.buf, b[:n])
 			p.buf = append(p.buf, b[:n]...)
 			if err != nil {
 				p.readErr = err
@@ -243,6 +244,7 @@ func UpstreamProxyThenTLS(raw *Peer, outer *tls.Config, pick func(authority stri
 		for {
 			n, err := t.Read(b)
 			p.mu.Lock()
+			scanPoison(raw.C.Name+" (TLS plaintext)", p.buf, b[:n])
 			p.buf = append(p.buf, b[:n]...)
 			if err != nil {
 				p.readErr = err
